@@ -45,10 +45,14 @@ class Interp:
         self.env = {}
 
     def ev(self, e):
+        if isinstance(e, ast.Constant) and (e.value is None or isinstance(e.value, (str, bool))):
+            return ('opaque', repr(e.value))
         if isinstance(e, ast.Constant) and isinstance(e.value, (int, float)) and not isinstance(e.value, bool):
             return Poly.const(Fraction(str(e.value)))
         if isinstance(e, ast.Name):
             if e.id in self.env:
+                if isinstance(self.env[e.id], tuple) and self.env[e.id] and self.env[e.id][0] == 'opaque':
+                    raise Uninterp('value of %s is not a number or a vector' % e.id)
                 return self.env[e.id]
             raise Uninterp('unknown name ' + e.id)
         if isinstance(e, ast.UnaryOp) and isinstance(e.op, ast.USub):
@@ -192,7 +196,9 @@ def check(model, rep):
     rep.ob('R15.2', fi, 'for %s in %s' % (src(lp.target), src(lp.iter)), ok_iter,
            'the test does not iterate over all registered obstructions', line=lp.lineno)
     after = [s for s in body if s.lineno > lp.end_lineno]
-    ok_after = len(after) == 1 and isinstance(after[0], ast.Return) and isinstance(after[0].value, ast.Constant) and after[0].value.value is False
+    exits_after = [n for s_ in after for n in ast.walk(s_) if isinstance(n, (ast.Return, ast.Raise))]
+    ok_after = bool(after) and len(exits_after) == 1 and exits_after[0] is after[-1] and isinstance(after[-1], ast.Return) \
+        and isinstance(after[-1].value, ast.Constant) and after[-1].value.value is False
     rep.ob('R15.2', fi, 'return False after the loop', ok_after and not lp.orelse,
            'when no box intersects, the function does not return False')
     before = [s for s in body if s.lineno < lp.lineno]
@@ -210,8 +216,10 @@ def check(model, rep):
                     raise Uninterp('assignment target ' + src(s.targets[0]))
                 it.env[s.targets[0].id] = it.ev(s.value)
         nested_assign = [n for s in lp.body if not isinstance(s, ast.Assign) for n in ast.walk(s) if isinstance(n, (ast.Assign, ast.AugAssign))]
-        if nested_assign:
-            raise Uninterp('conditional assignment inside the loop body')
+        cond_names = {t.id for n in nested_assign for t in ast.walk(n.targets[0] if isinstance(n, ast.Assign) else n.target) if isinstance(t, ast.Name)}
+        read_names = {n.id for n in ast.walk(lp) if isinstance(n, ast.Name) and isinstance(n.ctx, ast.Load)}
+        if cond_names & read_names:
+            raise Uninterp('conditionally assigned value %s is read inside the loop body' % sorted(cond_names & read_names))
     except Uninterp as e:
         raise AnalysisError('RRTStar.obstruction is no longer separating-axis-shaped (cannot interpret: %s)' % e)
     # guards on the path(s) that report an obstruction
